@@ -10,7 +10,14 @@ VARIABLE l
 IsEvent(e) == l <= Len(Rec) /\ Rec[l].ev = e /\ l' = l + 1
 
 HasEntry(r) == \E i \in 1..Len(ListTable) : ListTable[i].number = r.number /\ ListTable[i].path = r.path
-EntryOf(r) == ListTable[CHOOSE i \in 1..Len(ListTable) : ListTable[i].number = r.number /\ ListTable[i].path = r.path]
+TableEntry(r) == ListTable[CHOOSE i \in 1..Len(ListTable) : ListTable[i].number = r.number /\ ListTable[i].path = r.path]
+(* Lists that follow a variable-length string have no fixed position in Layouts (-1): the recorder locates the count field  *)
+(* of the concrete frame (first bit in which the frames with cap and cap-1 elements differ) and logs it with the event.      *)
+Pick(a, b) == IF a >= 0 THEN a ELSE b
+EntryOf(r) == LET T == TableEntry(r) IN
+              IF "coff" \in DOMAIN r
+              THEN [T EXCEPT !.countoff = Pick(T.countoff, r.coff), !.elemsoff = Pick(T.elemsoff, r.eoff), !.elembits = Pick(T.elembits, r.ebits)]
+              ELSE T
 CountOnWire(frame, L) == FromBitsU(BufBits(frame, 24 + L.countoff, L.countbits))
 
 ListRtOk(r) ==
@@ -38,8 +45,7 @@ PatchedOk(r) ==
     LET L == EntryOf(r)
         cnt == CountOnWire(r.frame, L) IN
     /\ HasEntry(r) /\ Classify(r.frame) = "ok" /\ L.countoff >= 0 /\ L.elemsoff >= 0 /\ L.elembits >= 0
-    /\ (cnt <= L.cap /\ 8 * DeclLen(r.frame) >= L.elemsoff + cnt * L.elembits
-           /\ 8 * DeclLen(r.frame) - (L.elemsoff + cnt * L.elembits) < 8) =>
+    /\ (cnt <= L.cap /\ 8 * DeclLen(r.frame) >= L.elemsoff + cnt * L.elembits) =>
           (r.out = "Typed" /\ r.dec_n = cnt)
 TracePatched == IsEvent("ListPatched") /\ PatchedOk(Rec[l]) = TRUE
 TraceRt == IsEvent("ListRt") /\ ListRtOk(Rec[l]) = TRUE
